@@ -27,7 +27,10 @@ type glueArgs struct {
 	Expect    string       `json:"expect"` // "valid" | "invalid"
 	Rule      string       `json:"rule,omitempty"`
 	Placement string       `json:"placement,omitempty"`
-	V         string       `json:"v"` // class of the structural stage: "ok" | "structural"
+	V         string       `json:"v"` // class of the structural stage on the merge result: "ok" | "structural"
+	// classes of the structural stage of each included project taken alone (an included project is validated on its own,
+	// before it is merged into the including model)
+	VInc []string `json:"vinc,omitempty"`
 }
 
 var glueCombos = []struct {
@@ -105,9 +108,9 @@ func init() {
 			}
 			json.Unmarshal(real, &r)
 			if r.OK.Proj == nil || string(r.OK.Proj) == "null" {
-				return map[string]any{"proj": map[string]any{}, "v": a.V}
+				return map[string]any{"proj": map[string]any{}, "v": a.V, "vinc": a.VInc}
 			}
-			return map[string]any{"proj": r.OK.Proj, "v": a.V}
+			return map[string]any{"proj": r.OK.Proj, "v": a.V, "vinc": a.VInc}
 		},
 		Judge: func(args, real, drv json.RawMessage) *core.Verdict {
 			if v := c10Crash(real); v != nil {
@@ -165,6 +168,26 @@ func init() {
 	})
 }
 
+// repairedByReset: a secret / config with two sources, and a later file of the *including* project that removes one of them
+// with `!reset`.  Declared in the main file the merge result is valid and the load succeeds; declared in an included project
+// the load fails although the merge result is the same: the included project is validated on its own (`includedChecks`).
+func repairedByReset(m validModel, sec, name string, decl M, drop string, included bool) core.LoadReq {
+	main := M{"services": core.DeepCopyVal(m.services)}
+	for k, v := range m.top {
+		main[k] = core.DeepCopyVal(v)
+	}
+	l := layout{files: M{"compose.yaml": main}, configFiles: []string{"compose.yaml", "override.yaml"}}
+	if included {
+		main["include"] = []any{"inc.yaml"}
+		l.files["inc.yaml"] = M{sec: M{name: decl}}
+	} else {
+		l.files["compose.yaml"] = deepMerge(main, M{sec: M{name: decl}})
+	}
+	req := l.req(nil)
+	req.Files["override.yaml"] = sec + ":\n  " + name + ":\n    " + drop + ": !reset null\n"
+	return req
+}
+
 func isStructuralRule(rule string) bool {
 	return strings.HasPrefix(rule, "externalVolume:") || strings.HasPrefix(rule, "secretSources:") || strings.HasPrefix(rule, "configSources:") ||
 		strings.HasPrefix(rule, "deviceRequest:") || strings.HasPrefix(rule, "watchPath:")
@@ -184,6 +207,25 @@ func runC10Glue(ctx *core.Ctx) {
 				ctx.Count("glue:valid:" + kind)
 			}
 			ctx.Add("c10.glue", glueArgs{Req: l.req(nil), Expect: "valid", Rule: "valid", Placement: kind, V: "ok"})
+		}
+	}
+	for i := 0; i < ctx.Pick(2, 20); i++ {
+		m := genValidModel(r)
+		for _, c := range []struct {
+			rule, sec string
+			decl      M
+			drop      string
+		}{
+			{"secretSources:several", "secrets", M{"file": "./secret.txt", "environment": "SECRET_ENV"}, "environment"},
+			{"secretSources:several", "secrets", M{"file": "./secret.txt", "environment": "SECRET_ENV"}, "file"},
+			{"configSources:file+content", "configs", M{"file": "./config.txt", "content": "c"}, "content"},
+			{"configSources:file+environment", "configs", M{"file": "./config.txt", "environment": "CFG_ENV"}, "file"},
+			{"externalVolume:driver", "volumes", M{"external": true, "driver": "foo"}, "driver"},
+		} {
+			ctx.Count("glue:repaired-by-reset:main")
+			ctx.Add("c10.glue", glueArgs{Req: repairedByReset(m, c.sec, "rx", c.decl, c.drop, false), Expect: "valid", Rule: c.rule + ":repaired-by-reset", Placement: "main", V: "ok"})
+			ctx.Count("glue:repaired-by-reset:include")
+			ctx.Add("c10.glue", glueArgs{Req: repairedByReset(m, c.sec, "rx", c.decl, c.drop, true), Expect: "invalid", Rule: c.rule + ":repaired-by-reset", Placement: "include", V: "ok", VInc: []string{"structural"}})
 		}
 	}
 	edits := c10Edits()
